@@ -24,6 +24,7 @@ from ..seams import entropy
 from ..util import data, Rng
 
 SET_VALUES = [0x00, 0x7F, 0x80, 0x81, 0xFF, 0x30, 0x02]
+TAG_VALUES = [0x04, 0x03, 0x05, 0x06, 0x31, 0xA0, 0x01]       # additional overwrite values at DER header positions
 EXT_ALPHABET = [b"\x00", b"\x30", b"\x80", b"\xff", b"\n", b"\x00\x00", b"\x05\x00", b"\x30\x00\x00"]
 CHUNK = 160
 PASSPHRASE = b"c13-pass"
@@ -79,6 +80,35 @@ def apply_fault(b, f, aux=None):
             return R.append_inside(b, chain, bytes.fromhex(f[2]))
         except Exception:
             return None
+    if k == "tlv":
+        chain = [tuple(c) for c in f[1]]
+        off, hl, length = chain[-1]
+        how = f[2]
+        try:
+            tag = b[off]
+            if how == "zero":
+                new = b[off:off + hl] + bytes(length)
+            elif how == "empty":
+                new = bytes([tag, 0])
+            elif how == "int0":
+                new = b"\x02\x01\x00"
+            elif how == "int1":
+                new = b"\x02\x01\x01"
+            elif how == "intneg":
+                new = b"\x02\x01\xff"
+            elif how == "null":
+                new = b"\x05\x00"
+            elif how.startswith("retag"):
+                new = bytes([int(how[5:], 16)]) + b[off + 1:off + hl + length]
+            elif how == "drop":
+                new = b""
+            elif how == "twice":
+                new = b[off:off + hl + length] * 2
+            else:
+                return None
+            return R.replace_tlv(b, chain, new)
+        except Exception:
+            return None
     if k == "torn":
         o = aux["other"]
         return b[:f[1]] + o[f[1]:]
@@ -132,6 +162,9 @@ def single_faults(b, is_der, is_text):
     for k in hot:
         for v in SET_VALUES:
             out.append(["set", k, v])
+    for (off, hl, length, tag) in hdrs[:60]:
+        for v in TAG_VALUES:
+            out.append(["set", off, v])
     for e in EXT_ALPHABET:
         out.append(["extend", e.hex()])
     for i, k in enumerate(hot[::5]):
@@ -151,6 +184,14 @@ def single_faults(b, is_der, is_text):
             if wrapper or (tag in (0x30, 0x31) and len(chain) <= 1):
                 for junk in ("00", "ff", "0500") if wrapper else ("00", "ff"):
                     out.append(["inner_extend", [list(c) for c in chain], junk])
+    if is_der:
+        # field-level damage: a whole member zeroed, emptied, replaced by a small INTEGER / NULL, re-tagged, lost or written twice
+        for chain in R.chains(b)[:48]:
+            tag = b[chain[-1][0]]
+            hows = ["zero", "empty", "int0", "int1", "intneg", "null", "drop", "twice"]
+            hows += ["retag" + t for t in ("02", "04", "03", "30", "31", "05", "06", "a0", "a1") if int(t, 16) != tag][:5 if len(chain) > 2 else 9]
+            for how in hows:
+                out.append(["tlv", [list(c) for c in chain], how])
     for k in hot[::9]:
         if k > 0:
             out.append(["torn", k])
@@ -477,11 +518,29 @@ class Rfc1751T(Target):
     is_text = True
 
     def items(self, m):
-        return [{"n": n, "s": s} for n in (8, 16, 24) for s in range(3)]
+        return [{"n": n, "s": s} for n in (8, 16, 24) for s in list(range(3)) + ["zero", "ff", "lead0", "lead0b", "tail0", "one"]]
+
+    def _key(self, item):
+        n, s = item["n"], item["s"]
+        if s == "zero":
+            return bytes(n)
+        if s == "ff":
+            return b"\xff" * n
+        if s == "one":
+            return bytes(n - 1) + b"\x01"
+        k = bytearray(data("rfc%s" % s, n))
+        if s == "lead0":
+            k[0] = 0
+        elif s == "lead0b":
+            k[n - 8] = 0
+            k[n - 7] = 0
+        elif s == "tail0":
+            k[-1] = 0
+        return bytes(k)
 
     def encode(self, m, item):
         from Crypto.Util.RFC1751 import key_to_english
-        return key_to_english(data("rfc%d" % item["s"], item["n"])).encode("ascii")
+        return key_to_english(self._key(item)).encode("ascii")
 
     def decode(self, m, item, b):
         from Crypto.Util.RFC1751 import english_to_key
@@ -492,7 +551,7 @@ class Rfc1751T(Target):
         return english_to_key(s)
 
     def same(self, m, item, d):
-        return d == data("rfc%d" % item["s"], item["n"])
+        return d == self._key(item)
 
 
 class NumberT(Target):
@@ -606,6 +665,21 @@ class Machine(object):
             elif curve in ("Ed25519",):
                 add("ECC", ki, pub.export_key(format="OpenSSH"), True, True)
             # (raw Ed/X public keys are not an import_key format: they have their own import functions)
+        # minimal X.509 certificates (the importers extract the SubjectPublicKeyInfo and never check the signature)
+        from Crypto.Util import asn1 as A
+
+        def cert(spki, v3):
+            alg = A.DerSequence([A.DerObjectId("1.2.840.113549.1.1.11").encode(), A.DerNull().encode()]).encode()
+            name = A.DerSequence([A.DerSetOf([A.DerSequence([A.DerObjectId("2.5.4.3").encode(), A.DerOctetString(b"c13").encode()]).encode()]).encode()]).encode()
+            validity = A.DerSequence([A.DerOctetString(b"250101000000Z").encode(), A.DerOctetString(b"350101000000Z").encode()]).encode()
+            tbs = ([A.DerInteger(2, explicit=0).encode()] if v3 else []) + [0x1234, alg, name, validity, name, spki]
+            return A.DerSequence([A.DerSequence(tbs).encode(), alg, A.DerBitString(b"\x01" * 32).encode()]).encode()
+        add("RSA", 0, cert(self.keys["RSA"][0].publickey().export_key("DER"), True), False, True, x509=True)
+        add("RSA", 0, cert(self.keys["RSA"][0].publickey().export_key("DER"), False), False, True, x509=True)
+        add("DSA", 0, cert(self.keys["DSA"][0].publickey().export_key("DER"), True), False, True, x509=True)
+        add("DSA", 0, cert(self.keys["DSA"][0].publickey().export_key("DER"), False), False, True, x509=True)
+        add("ECC", 2, cert(self.keys["ECC"][2].public_key().export_key(format="DER"), True), False, True, x509=True)
+        add("ECC", 5, cert(self.keys["ECC"][5].public_key().export_key(format="DER"), False), False, True, x509=True)
         entropy.reset_stream(0)
 
     def build_index(self, tier):
@@ -628,6 +702,25 @@ class Machine(object):
                 for c in chunks:
                     self.index.append((t.name, ii, c))
         self.nseeded = 4000 if tier == "quick" else 200000
+
+    def _in_scope(self, t, item, valid, fault):
+        """X.509 certificates: the importers only extract the SubjectPublicKeyInfo; issuer, validity, signature etc. are
+        never parsed, so header damage is judged only on the path to the SPKI and inside it."""
+        if not (isinstance(t, KeyT) and t.rec(self, item).get("x509")) or fault[0] not in ("lenhdr", "inner_extend"):
+            return True
+        try:
+            _, hl0, l0, _, _ = R.read_tlv(valid, 0)
+            _, hl1, l1, _, _ = R.read_tlv(valid, hl0)
+            off, end = hl0 + hl1, hl0 + hl1 + l1
+            last = None
+            while off < end:
+                _, h, l, _, _ = R.read_tlv(valid, off, end)
+                last = (off, off + h + l)
+                off += h + l
+        except R.Bad:
+            return True
+        o = fault[1][-1][0]
+        return o in (0, hl0) or (last is not None and last[0] <= o < last[1])
 
     def _label(self, t, item):
         if isinstance(t, KeyT):
@@ -736,7 +829,7 @@ class Machine(object):
                                 "unpad(style=%s, block=%d) accepted padding the style does not define (%s)" % (item["style"], item["bs"], label),
                                 observed=repr(d)[-40:], expected="ValueError" if ref is None else repr(ref)[-40:])
                 continue
-            if is_der and len(seq) == 1:
+            if is_der and len(seq) == 1 and self._in_scope(t, item, valid, seq[0]):
                 k = seq[0][0]
                 if k == "trunc":
                     ctx.violate("strict/%s/prefix-accepted" % t.name, "a proper prefix (%d of %d bytes) of a valid encoding was accepted" % (len(b), len(valid)),
